@@ -131,6 +131,31 @@ def check(uid, tier, seed=0, only=None, keep=False):
         if model_limit:
             undecided.append('%s: model limit reached: %s' % (p.id, model_limit[0]['description']))
             continue
+        # only proof scaffolding failed (loop invariants / variants / loop frames) and no postcondition: the loop contracts may
+        # simply not fit a restructured loop any more.  A bounded search for a postcondition counterexample decides what is
+        # reported: found -> VIOLATION (named postcondition); not found -> UNDECIDED, not an alarm.
+        scaffold = lambda o: re.search(r'loop_invariant_(base|step)|loop_decreases|loop_assigns|loop_step_unwinding', o['name'] or '') is not None
+        if failed and p.loop_contracts and not getattr(p, 'finding', None) and all(scaffold(o) for o in failed) and p.id not in fallback:
+            import copy
+            q = copy.copy(p)
+            q.id = p.id + '.search'
+            q.loop_contracts = False
+            q.expect_loops = 0
+            q.unwind = int(os.environ.get('VERIF_FALLBACK_UNWIND', '4'))
+            q.no_unwinding_assertions = True
+            q.timeout = min(p.timeout, 1200)
+            rq = q.run(work)
+            pf = [o for o in rq.get('obligations', []) if o['status'] != 'SUCCESS' and '.postcondition.' in (o['name'] or '') and not (o['name'] or '').startswith('free.')]
+            if rq['status'] in ('pass', 'fail') and pf:
+                bounded.append({'proof': q.id, 'bound': 'loops unwound %d times (search after a loop-contract failure in %s)' % (q.unwind, p.id), 'obligations': len(rq['obligations']), 'failed': len(pf)})
+                for o in pf:
+                    violations.append((q, rq, o))
+                n_ob += len(obs) - len(failed)
+                n_ok += len(obs) - len(failed)
+                continue
+            undecided.append('%s: loop contract no longer fits (%s fails) and the bounded search (loops unwound %d times) found no postcondition violation: undecided, not an alarm'
+                             % (p.id, label_of(failed[0], p), q.unwind))
+            continue
         # vacuity: every labelled postcondition must appear among the reported obligations
         want = getattr(p, 'expect_post', 0)
         got = len([o for o in obs if '.postcondition.' in (o['name'] or '') and not o['name'].startswith('free.')]) + \
